@@ -102,6 +102,22 @@ def configs(tier):
                 continue
             out.append(dict(solver='AndersonCD', kind='e2e', datafit=df, penalty=pen, X=X, max_iter=2, max_epochs=1,
                             fit_intercept=fi, ws_strategy=strat, warm=False, sparse=sparse, p0=p0))
+    # GroupBCD / GroupProxNewton: singleton-group layouts keep the group norms linear; a 2-feature group in thorough
+    for lay, fi, sparse, pos in itertools.product(['single', 'rev'] if q else ['single', 'rev', 'pair'], (False, True), (False, True), (False, True)):
+        if q and (sparse or dh(('grp', lay, fi, pos)) % 2):
+            continue            # (CSC group constants come from the power method: square roots; thorough only)
+        out.append(dict(solver='GroupBCD', kind='t0', datafit='QuadraticGroup', penalty='WeightedGroupL2' + ('+' if pos else ''),
+                        X='corr32', layout=lay, max_iter=1, max_epochs=0, p0=1, fit_intercept=fi, ws_strategy='subdiff', warm=True,
+                        sparse=sparse, wg_concrete=[1.0, 0.5]))
+    for lay, fi in itertools.product(['single', 'rev'], (False, True)):
+        out.append(dict(solver='GroupBCD', kind='e2e', datafit='QuadraticGroup', penalty='WeightedGroupL2', X='corr32', layout=lay,
+                        max_iter=2, max_epochs=1, p0=1, fit_intercept=fi, ws_strategy='subdiff', warm=False, wg_concrete=[1.0, 0.5]))
+    # GroupProxNewton (LogisticGroup, parametrised by its model fit): the outer optimality check at an arbitrary state
+    for lay, (X, fi) in itertools.product(['single', 'rev'], (('orth22', False), ('gen32', True))):
+        if q and fi:
+            continue        # (3 exp atoms + intercept: minutes, with unknowns -- thorough tier)
+        out.append(dict(solver='GroupProxNewton', kind='t0', datafit='LogisticGroup', penalty='WeightedGroupL2', X=X, layout=lay,
+                        max_iter=1, max_pn_iter=0, p0=1, fit_intercept=fi, warm=True, param_fit=True, wg_concrete=[1.0, 0.5]))
     # GramCD (one epoch is part of every iteration)
     for pen, X in itertools.product(['L1', 'L1+', 'WeightedL1', 'MCPenalty', 'IndicatorBox'] + ([] if q else ['L1_plus_L2']), Xs):
         for greedy in (False, True):
@@ -159,6 +175,26 @@ def units(tier):
                        patched=c['solver'] in ('ProxNewton', 'GroupProxNewton') or bool(c.get('acc_stub'))))
     # inductive complement (S): the prox-Newton line searches keep the buffers the certificate is computed from consistent
     from checks import steps as ST
+    # MultiTaskBCD with one task (row norms are absolute values): certificate at tolerance stops
+    for fi, sp, warm in itertools.product((False, True), (False, True), (False, True)):
+        if tier == 'quick' and sp and warm:
+            continue
+        us.append(Unit('C01/D/MultiTaskBCD[T=1,intercept=%s,sparse=%s,warm=%s]' % (fi, sp, warm), ST.u_multitask_run,
+                       dict(X='corr32', fit_intercept=fi, sparse=sp, warm=warm, budget=(1, 0) if warm else (2, 1), want=('certificate',)),
+                       wall_s=90, timeout_ms=8000))
+    # two tasks (catalogue targets whose per-task means differ in sign; alpha, tol symbolic): the intercept term of the
+    # stopping value is the LARGEST absolute per-task gradient
+    for sp, (tag, Yc) in itertools.product((False, True), (('means(0,-3)', [[0.0, -2.0], [1.0, -5.0], [-1.0, -2.0]]),
+                                                          ('means(0,+3)', [[0.0, 2.0], [1.0, 5.0], [-1.0, 2.0]]))):
+        us.append(Unit('C01/D/MultiTaskBCD[T=2,intercept=True,sparse=%s,Y=%s]' % (sp, tag), ST.u_multitask_run,
+                       dict(X='corr32', fit_intercept=True, sparse=sp, warm=False, budget=(1, 0), T=2, want=('certificate',),
+                            Y_concrete=Yc), wall_s=90, timeout_ms=8000))
+    # inductive complement for GroupBCD on CSC input: the sparse group epoch keeps the model-fit buffer (from which the next
+    # scores and the stopping value are computed) in sync, exactly as the dense epoch does -- same block constants
+    for lay, X in (('single', 'corr32'), ('rev', 'gen32')) + ((('pair', 'gen32'),) if tier != 'quick' else ()):
+        for g in range(len(DR.GROUP_LAYOUTS[lay])):
+            us.append(Unit('C01/S/group_step_csc[QuadraticGroup,layout=%s,X=%s,g=%d]' % (lay, X, g), ST.u_group_step,
+                           dict(datafit='QuadraticGroup', layout=lay, X=X, g=g, sparse_epoch=True), wall_s=90, timeout_ms=8000))
     for X, fi in (('corr32', False), ('corr32', True)):
         us.append(Unit('C01/S/pn_linesearch[X=%s,intercept=%s]' % (X, fi), ST.u_pn_linesearch, dict(X=X, fit_intercept=fi),
                        wall_s=120, timeout_ms=8000, patched=True))
@@ -174,7 +210,7 @@ def units(tier):
 
 MANIFEST = dict(
     claimed=True,
-    level_text=("Bounded symbolic model checking of the real solver drivers (AndersonCD, GramCD, ProxNewton; dense and CSC, "
+    level_text=("Bounded symbolic model checking of the real solver drivers (AndersonCD, GramCD, ProxNewton, GroupBCD; dense and CSC, "
                 "with/without intercept, both working-set strategies): at every return of every feasible control path, for all "
                 "y, alpha, tol, weights and warm starts, z3 decides that stop_crit <= tol implies the first-order violation "
                 "recomputed by the harness from X, y and the returned w alone is <= tol (and, tolerance-free, that the returned "
@@ -186,6 +222,8 @@ MANIFEST = dict(
                 "(max_iter<=2, max_epochs<=1; ProxNewton 1 PN step with MAX_CD_ITER/MAX_BACKTRACK_ITER patched to 2); "
                 "hyper-parameters other than alpha (l1_ratio, gamma) from a catalogue at driver level (symbolic at kernel "
                 "level, C07/C08); Logistic parametrised by its model fit on square invertible designs; exp/log uninterpreted. "
-                "GroupBCD, GroupProxNewton, MultiTaskBCD and LBFGS certificates are not yet covered here (their scores are "
-                "checked at kernel level in C08); longer runs are covered only through the inductive reading."),
+                "GroupBCD runs use WeightedGroupL2 (+-positive) with singleton-group layouts and catalogue group weights in the "
+                "quick tier (a 2-feature group and CSC in thorough), 'subdiff' strategy; MultiTaskBCD runs use one task (row "
+                "norms = absolute values); GroupProxNewton: the outer check at an arbitrary state (LogisticGroup, singleton groups). "
+                "LBFGS certificates are not covered here; longer runs are covered only through the inductive reading."),
 )
